@@ -95,6 +95,10 @@ type SourceScript struct {
 	ReadMenu []string
 	// GateOpen / GateTeardown / GateStop make those calls pending events (menu {"ok","err"} when Faults is set).
 	GateOpen, GateTeardown, GateStop bool
+	// LateAckRecv makes the plugin slow to take acks off its stream: before every receive it parks on the gate
+	// "~late:<name>.ackrecv", which sorts after every other alternative (the engine's ack sender stays blocked in Send
+	// until nothing else can run).
+	LateAckRecv bool
 	Faults                           bool
 	// PositionOf overrides the position bytes of a record (C09 shapes: empty / duplicate positions).
 	PositionOf func(i int) opencdc.Position
@@ -189,6 +193,9 @@ func (s *Source) Run(ctx context.Context, stream pconnector.SourceRunStream) err
 	go func() {
 		defer close(ackDone)
 		for {
+			if s.S.LateAckRecv {
+				s.W.Gate(ctx, "~late:"+s.S.Name+".ackrecv", "ok")
+			}
 			req, err := srv.Recv()
 			if err != nil {
 				return
@@ -382,6 +389,9 @@ func (d *Dest) Run(ctx context.Context, stream pconnector.DestinationRunStream) 
 				}
 				if g := r.Metadata["verif.gen"]; g != "" {
 					arg += "|gen=" + g
+				}
+				if pth := r.Metadata["verif.path"]; pth != "" && !dlq {
+					arg += "|path=" + pth
 				}
 				d.W.Log(d.S.Name, "recv", i, arg)
 			}
